@@ -163,13 +163,24 @@ impl ConnectionManager {
                 Some(connecting_output) = self.pending_connections.join_next() => {
                     #[cfg(bmwill_anemo_verif)]
                     crate::verif::point_ctx("cm.pending", Some(self.endpoint.peer_id()), None, None);
-                    self.handle_connecting_result(connecting_output.unwrap());
+                    // If a task panics, just propagate it. A cancelled task (the runtime is being
+                    // torn down) has no result to handle.
+                    match connecting_output {
+                        Ok(connecting_result) => self.handle_connecting_result(connecting_result),
+                        Err(e) if e.is_panic() => std::panic::resume_unwind(e.into_panic()),
+                        Err(_) => {}
+                    }
                 },
                 Some(connection_handler_output) = self.connection_handlers.join_next() => {
                     #[cfg(bmwill_anemo_verif)]
                     crate::verif::point_ctx("cm.handler", Some(self.endpoint.peer_id()), None, None);
-                    // If a task panics, just propagate it
-                    connection_handler_output.unwrap();
+                    // If a task panics, just propagate it. A cancelled task (the runtime is being
+                    // torn down) is not an error.
+                    if let Err(e) = connection_handler_output {
+                        if e.is_panic() {
+                            std::panic::resume_unwind(e.into_panic());
+                        }
+                    }
                 },
             }
         }
